@@ -424,6 +424,12 @@ func c12client(r *Run) {
 		p := pop.Add(id, r.Addr(form))
 		stt := PS(p)
 		kind := ch.Pick([]int{4, 2, 2, 2, 2, 3, 2}, "reply.kind")
+		switch ch.Pick([]int{8, 1, 1}, "reply.token") {
+		case 1:
+			stt.NoToken = true // answers without a write token
+		case 2:
+			stt.EmptyTok = true
+		}
 		it := benc.Dict{}
 		valid := false
 		var seq int64
